@@ -1,6 +1,7 @@
 mod util;
 mod arr;
 mod c01;
+mod c03;
 mod c06;
 mod c16;
 mod c17;
@@ -51,6 +52,7 @@ fn exec_line(ctx: &mut Ctx, line: &str) -> String {
                 }
             }
         }
+        "c03" => c03::exec(line),
         "c18" => c18::exec(line),
         "c19" => {
             let (v, m) = parse_line(line);
@@ -93,6 +95,7 @@ fn main() {
             let prop = a.rest.get(0).cloned().unwrap_or_default();
             match prop.as_str() {
                 "c01" => c01::generate(&a.tier, a.seed),
+                "c03" => c03::generate(&a.tier, a.seed),
                 "c04" => c01::generate_c04(&a.tier, a.seed),
                 "c06" => c06::generate(&a.tier, a.seed),
                 "c16" => c16::generate(&a.tier, a.seed),
